@@ -1,4 +1,4 @@
-// Counterexample found by mirsym/z3 for property C06, template iso0_both_mid: q != p0, conde { conde { true, q == p1, q == p2 }, q == p3, false } with parameters [0, 3, 0, 0]: reference answer 1 is missing from the engine's answers (same ground instances; expected answers ['_', '3'])
+// Counterexample found by mirsym/z3 for property C06, template iso0_both_mid: q != p0, conde { conde { true, q == p1, q == p2 }, q == p3, false } with parameters [0, 0, -1, -1]: reference answer 2 is missing from the engine's answers (same ground instances; expected answers ['_', '-1', '-1'])
 // Replay: /verif/check C06 --replay /verif/replay/cases/C06-iso0_both_mid_order_or_count.rs
 #![allow(unused_imports, unused_variables, unused_mut)]
 use proto_vulcan::prelude::*;
@@ -105,9 +105,9 @@ fn replay() {
 
 fn body() {
     let p0: T = LTerm::from(0);
-    let p1: T = LTerm::from(3);
-    let p2: T = LTerm::from(0);
-    let p3: T = LTerm::from(0);
+    let p1: T = LTerm::from(0);
+    let p2: T = LTerm::from(-1);
+    let p3: T = LTerm::from(-1);
     let query = proto_vulcan_query!(|q| {
         q != p0,
         conde { conde { true, q == p1, q == p2 }, q == p3, false }
@@ -116,7 +116,7 @@ fn body() {
     let re = |s: String| { let mut o = String::new(); let mut it = s.chars().peekable();
         while let Some(c) = it.next() { o.push(c); if c == '_' { if it.peek() == Some(&'.') { it.next(); while it.peek().map_or(false, |d| d.is_ascii_digit()) { it.next(); } } } } o };
     let mut got: Vec<String> = query.run().take(LIMIT).map(|r| re(format!("{}", *r.q))).collect();
-    let mut expected: Vec<String> = vec!["_".to_string(), "3".to_string()];
+    let mut expected: Vec<String> = vec!["_".to_string(), "-1".to_string(), "-1".to_string()];
     got.sort();
     expected.sort();
     assert_eq!(got, expected);
